@@ -499,3 +499,76 @@ def check_fchk_basis_block(ctx, rid):
         ctx.violate(rid, f"FCHK basis block: {bad}", do, wst[0], construct=f"fchk basis block: {bad}"[:170])
     else:
         ctx.ok(rid, f"fchk: {len(shells)} model shells (s, SP, pure d, Cartesian f, p, pure g on three centres) written as Shell types / Shell to atom map / primitive arrays / P(S=P) coefficients are rebuilt by the reader's block", f"{do.module.relpath}:{wst[0].lineno}")
+
+
+def check_wfn_primitive_lists(ctx, rid):
+    """WFN centre / type / exponent lists: the statements of dump_one that build them are interpreted on a model
+    de-contracted basis (s, d, two p, f primitives on two centres; the module's own CONVENTIONS), the numbers are
+    compared with the format's TYPE ASSIGNMENTS numbering (1 s, 2-4 p, 5-10 d, 11-20 f, 21-35 g) and handed to the
+    reader's `build_obasis`, which must regroup them into the same primitives, in order."""
+    from ..consteval import ConstEval, NotConstant
+
+    prog = ctx.prog
+    do = prog.format_op("wfn", "dump_one")
+    bo = prog.funcs.get("iodata.formats.wfn.build_obasis")
+    if bo is None:
+        raise AnalysisError("wfn.build_obasis not found")
+    shcls = prog.cls("iodata.basis.Shell")
+    bcls = prog.cls("iodata.basis.MolecularBasis")
+    licls = prog.cls("iodata.utils.LineIterator")
+    try:
+        conv = ConstEval(prog).global_value(do.module, "CONVENTIONS")
+    except NotConstant as exc:
+        raise AnalysisError(f"wfn.CONVENTIONS is not a constant: {exc}") from exc
+
+    def sh(ic, l, ex):
+        return Rec(shcls, icenter=ic, angmoms=np.array([l]), kinds=["c"], exponents=np.array([ex]), coeffs=np.array([[1.0]]))
+
+    prims = [(0, 0, 5.0), (0, 2, 1.5), (1, 1, 0.8), (1, 1, 0.3), (0, 3, 0.9), (1, 0, 0.2)]
+    obasis = Rec(bcls, shells=[sh(*p_) for p_ in prims], conventions=conv, primitive_normalization="L2")
+    body = do.body
+    tgt = lambda st, name: isinstance(st, ast.Assign) and len(st.targets) == 1 and isinstance(st.targets[0], ast.Name) and st.targets[0].id == name
+    calls = [x for x in do.own_nodes() if isinstance(x, ast.Call) and getattr(x.func, "id", "") == "_dump_helper_section" and len(x.args) >= 2 and isinstance(x.args[1], ast.Name)]
+    if len(calls) < 3:
+        raise AnalysisError("wfn.dump_one: the three section writers (centres, types, exponents) were not found")
+    names = [c.args[1].id for c in calls[:3]]
+    idx = [next((i for i, st in enumerate(body) if tgt(st, nm)), None) for nm in names]
+    bvar = next((st.targets[0].id for st in body if isinstance(st, ast.Assign) and isinstance(st.value, ast.Call) and getattr(st.value.func, "id", "") == "MolecularBasis" and isinstance(st.targets[0], ast.Name)), None)
+    if None in idx or bvar is None:
+        raise AnalysisError("wfn.dump_one: the statements that build the centre / type / exponent lists were not found")
+    frag = body[min(idx) : max(idx) + 1]
+    nfun = {0: 1, 1: 3, 2: 6, 3: 10, 4: 15}
+    first = {0: 1, 1: 2, 2: 5, 3: 11, 4: 21}
+    want_c = [ic + 1 for ic, l, ex in prims for _ in range(nfun[l])]
+    want_t = [first[l] + k for ic, l, ex in prims for k in range(nfun[l])]
+    want_e = [ex for ic, l, ex in prims for _ in range(nfun[l])]
+    try:
+        ev = AccessorEval(prog, shcls, limit=40000)
+        ev.module = do.module
+        local = {bvar: obasis}
+        ev._block(frag, local)
+        cn, ty, ex = (list(np.asarray(local[nm]).ravel()) for nm in names)
+        if [int(v) for v in cn] != want_c:
+            ctx.violate(rid, f"WFN CENTRE ASSIGNMENTS for primitives (centre, l) {[(p_[0] + 1, p_[1]) for p_ in prims]} are written as {[int(v) for v in cn]}, expected {want_c}", do, frag[0], construct="wfn primitive lists: centres")
+            return
+        if [int(v) for v in ty] != want_t:
+            k = next(i for i, (a, b) in enumerate(zip([int(v) for v in ty] + [None] * len(want_t), want_t)) if a != b)
+            ctx.violate(rid, f"WFN TYPE ASSIGNMENTS: function {k + 1} of the model basis gets type {int(ty[k]) if k < len(ty) else None}, the format numbers it {want_t[k]} (1 s, 2-4 p, 5-10 d, 11-20 f, 21-35 g)", do, frag[0], construct="wfn primitive lists: types")
+            return
+        if [float(v) for v in ex] != want_e:
+            ctx.violate(rid, f"WFN EXPONENTS are written as {[float(v) for v in ex]}, expected {want_e}", do, frag[0], construct="wfn primitive lists: exponents")
+            return
+        lit = Rec(licls, filename="F", fh=iter([]), lineno=0, stack=[])
+        ev = AccessorEval(prog, licls, limit=40000)
+        ev.module = bo.module
+        ob, perm = ev.run_free(bo, [np.array(cn, dtype=int) - 1, np.array(ty, dtype=int) - 1, np.array(ex, dtype=float), lit], {})
+    except Raised as exc:
+        ctx.violate(rid, f"WFN primitive lists written by dump_one make build_obasis raise {exc.args[0]}", do, frag[0], construct="wfn primitive lists: raises")
+        return
+    except NotSymbolic as exc:
+        raise AnalysisError(f"WFN primitive-list statements are outside the evaluation whitelist: {exc}") from exc
+    back = [(int(s_.fields["icenter"]), int(np.asarray(s_.fields["angmoms"]).ravel()[0]), float(np.asarray(s_.fields["exponents"]).ravel()[0])) for s_ in ob.fields["shells"]]
+    if back != prims or [int(v) for v in np.asarray(perm).ravel()] != list(range(len(want_t))):
+        ctx.violate(rid, f"WFN primitive lists written for (centre, l, exponent) {prims} are regrouped by the reader as {back} with row permutation {[int(v) for v in np.asarray(perm).ravel()]}", do, frag[0], construct="wfn primitive lists: regrouped differently")
+    else:
+        ctx.ok(rid, f"wfn: centre / type / exponent lists of {len(prims)} model primitives carry the format's numbering and are regrouped by build_obasis into the same primitives, rows in place", f"{do.module.relpath}:{frag[0].lineno}")
